@@ -6,7 +6,10 @@ get_su2_irrep} and numqi.matrix_space.{get_angular_momentum_op, get_clebsch_gord
 construction of D^j, ladder-operator angular momentum and Racah-formula CG coefficients of vmon/ref/su2.py.
 Workloads: Euler grid with beta exactly at / next to the poles and alpha+-gamma in all quadrants, rotations written
 down directly as matrices (Rz(4.5), axis turns, the 24 signed permutations and their 48 lifts), Haar-random elements,
-batches of shapes (k,), (k,l), (1,), (k,1,l) mixing generic and degenerate members.
+batches of shapes (k,), (k,l), (1,), (k,1,l) mixing generic and degenerate members; work-buffer histories (one array object
+passed, updated in place by matmul(out=)/assignment/negation/a degenerate rotation, passed again with the same or another j2).
+Every contract snapshots its array arguments before the call and judges the result against that snapshot; a per-object
+history (previous contents of the same ndarray) names stale answers `*/stale-after-inplace-update`.
 """
 import math
 import numpy as np
@@ -18,7 +21,9 @@ RULE = ('cases = (operation, group element(s) or spin labels): every point of th
         'rotations written directly as matrices, all 24 signed permutation matrices of det +1 and all 48 elements of the '
         'binary octahedral group (and all ordered pairs of them), Haar-random elements, mixed batches; j2=0..10; all '
         '(j1,j2) with j1+j2<=4 (quick) / <=6 (thorough). A case is non-trivial when the rotation is not the identity '
-        '(|R-1|>1e-6, resp. U != +-1) or, for spin labels, when some j>0; distinct by digest of (operation, matrix bytes)')
+        '(|R-1|>1e-6, resp. U != +-1) or, for spin labels, when some j>0; distinct by digest of (operation, matrix bytes). '
+        'Histories: (first contents, in-place update, second contents, j2 of first/second call, number of other matrices in between) '
+        'on one array object, single and batched')
 EXHAUSTIVE = {'quick': True, 'thorough': True}
 EXHAUSTIVE_DOMAINS = {
     'quick': ['all 24 signed 3x3 permutation matrices with det +1 (single calls, one batch, all 576 ordered products)',
@@ -46,7 +51,9 @@ DECIDING = [P_LIE + n for n in ('so3_to_angle', 'su2_to_angle', 'angle_to_so3', 
     P_CG + 'get_angular_momentum_op', P_CG + 'get_clebsch_gordan_coeffient',
     'so3_to_angle@beta=0', 'so3_to_angle@beta=pi', 'so3_to_angle@near-pole', 'so3_to_angle@generic', 'so3_to_angle@mixed-batch',
     'su2_to_angle@beta=0', 'su2_to_angle@beta=pi', 'su2_to_angle@near-pole', 'su2_to_angle@generic', 'su2_to_angle@mixed-batch',
-    'su2_to_angle@sign-at-beta-pi',
+    'su2_to_angle@sign-at-beta-pi', 'history@work-buffer-updated-in-place', 'get_su2_irrep@argument-updated-in-place',
+    'su2_to_angle@argument-updated-in-place', 'su2_to_so3@argument-updated-in-place', 'so3_to_angle@argument-updated-in-place',
+    'so3_to_su2@argument-updated-in-place', 'get_su2_irrep@angle-array-updated-in-place',
     'get_su2_irrep@pole', 'get_su2_irrep@half-integer', 'irrep/homomorphism', 'su2_to_so3/homomorphism', 'cg/intertwining']
 TECHNIQUE = 'contracts on the real functions + reference-model comparison (runtime monitoring)'
 
@@ -58,11 +65,11 @@ MAX_ELEMENTWISE = 48
 
 
 def shards(tier, seed):
-    ret = [{'name': 'grid-so3'}, {'name': 'grid-su2'}, {'name': 'cube'}, {'name': 'random'}, {'name': 'irrep'}, {'name': 'angmom-cg'}]
+    ret = [{'name': 'grid-so3'}, {'name': 'grid-su2'}, {'name': 'cube'}, {'name': 'random'}, {'name': 'irrep'}, {'name': 'angmom-cg'}, {'name': 'workbuf'}]
     if tier == 'thorough':
         ret += [{'name': f'random-{i}', 'part': i} for i in range(1, 5)]
         ret += [{'name': f'irrep-{i}', 'part': i} for i in range(1, 4)]
-        ret += [{'name': 'cg-large'}]
+        ret += [{'name': 'cg-large'}, {'name': 'workbuf-1'}]
     return ret
 
 
@@ -111,6 +118,36 @@ def install(ctx, numqi):
     worst = ctx.extra.setdefault('worst_error', {})
     obs = ctx.extra.setdefault('su2_roundtrip_at_beta_pi', {'n': 0, 'sign_flipped': 0})
 
+    def pre_snap(c):
+        """copies of the array arguments taken BEFORE the call: every contract judges the result against the contents the
+        function was given, whatever happens to the caller's buffer afterwards (or inside the call)."""
+        return [np.array(x, copy=True) if isinstance(x, np.ndarray) else x for x in c.args]
+
+    def frozen(c, name, i=0):
+        cur = c.args[i]
+        snap = c.snap[i] if isinstance(c.snap, list) and len(c.snap) > i else cur
+        if isinstance(cur, np.ndarray) and snap is not cur:
+            ctx.check(cur.shape == snap.shape and np.array_equal(cur, snap, equal_nan=True), f'{name}/mutates-argument',
+                      f'{name} changed its array argument in place', lambda: {'before': snap, 'after': cur})
+        return snap
+
+    hist = {}
+
+    def previous(name, obj, snap):
+        """history per array OBJECT: the contents the same ndarray had at the previous monitored call of `name`, when they differ
+        from the present ones (a work buffer updated in place); the object is held so that its id cannot be reused."""
+        if not isinstance(obj, np.ndarray):
+            return None
+        key = (name, id(obj))
+        prev = hist.get(key)
+        if len(hist) >= 256 and key not in hist:
+            hist.clear()
+        hist[key] = (obj, snap)
+        if prev is not None and prev[0] is obj and prev[1].shape == snap.shape and not np.array_equal(prev[1], snap, equal_nan=True):
+            ctx.hit(f'{name}@argument-updated-in-place')
+            return prev[1]
+        return None
+
     def note(name, region, err):
         k = f'{name}[{region}]'
         if err > worst.get(k, -1.0):
@@ -131,12 +168,14 @@ def install(ctx, numqi):
     def post_so3_to_angle(c):
         if c.exc is not None:
             return
-        R = c.args[0]
+        R = frozen(c, 'so3_to_angle')
         if not (isinstance(R, np.ndarray) and R.ndim >= 2 and R.shape[-2:] == (3, 3)):
             return
         shape = R.shape[:-2]
         flat = np.asarray(R).real.reshape(-1, 3, 3).astype(np.float64)
         N = flat.shape[0]
+        prev = previous('so3_to_angle', c.args[0], R)
+        prevflat = None if prev is None else np.asarray(prev).real.reshape(-1, 3, 3).astype(np.float64)
         ang = angles_ok('so3_to_angle', c.result, shape)
         if ang is None or N == 0:
             return
@@ -157,8 +196,9 @@ def install(ctx, numqi):
             rn = REGION_NAME[reg[i]]
             ctx.hit('so3_to_angle@' + rn)
             note('so3_roundtrip', rn, err[i])
-            ctx.check(err[i] <= tol[i], 'so3_to_angle/roundtrip/' + ('pole' if reg[i] < 2 else rn),
-                      'angle_to_so3(*so3_to_angle(R)) differs from R (' + rn + ')',
+            stale = prevflat is not None and err[i] > tol[i] and _maxerr(rebuilt[i], prevflat[i]) <= tol[i]
+            ctx.check(err[i] <= tol[i], 'so3_to_angle/stale-after-inplace-update' if stale else 'so3_to_angle/roundtrip/' + ('pole' if reg[i] < 2 else rn),
+                      'angle_to_so3(*so3_to_angle(R)) ' + ('rebuilds the PREVIOUS contents of the array object, not R' if stale else 'differs from R (' + rn + ')'),
                       lambda i=i: {'R': flat[i], 'angles': [x[i] for x in ang], 'rebuilt': rebuilt[i], 'err': err[i], 'tol': tol[i],
                                    'beta_ref': beta[i], 'batch_shape': list(shape)})
         if N > 1:
@@ -180,18 +220,20 @@ def install(ctx, numqi):
                           'so3_to_angle/batch-vs-elementwise', 'batched so3_to_angle differs from the element-wise call (rebuilt matrices / beta compared)',
                           lambda i=i, one=one: {'R': flat[i], 'batched': [x[i] for x in ang], 'single': [float(x) for x in one], 'batch_shape': list(shape)})
 
-    ctx.attach(L, 'so3_to_angle', post=post_so3_to_angle)
+    ctx.attach(L, 'so3_to_angle', post=post_so3_to_angle, pre=pre_snap)
 
     # ------------------------------------------------------------------ su2_to_angle
     def post_su2_to_angle(c):
         if c.exc is not None:
             return
-        U = c.args[0]
+        U = frozen(c, 'su2_to_angle')
         if not (isinstance(U, np.ndarray) and U.ndim >= 2 and U.shape[-2:] == (2, 2)):
             return
         shape = U.shape[:-2]
         flat = np.asarray(U, dtype=np.complex128).reshape(-1, 2, 2)
         N = flat.shape[0]
+        prev = previous('su2_to_angle', c.args[0], U)
+        prevflat = None if prev is None else np.asarray(prev, dtype=np.complex128).reshape(-1, 2, 2)
         ang = angles_ok('su2_to_angle', c.result, shape)
         if ang is None or N == 0:
             return
@@ -217,6 +259,9 @@ def install(ctx, numqi):
             note('su2_roundtrip_up_to_sign', rn, err_s[i])
             wit = lambda i=i: {'U': flat[i], 'angles': [x[i] for x in ang], 'rebuilt': rebuilt[i], 'err_plus': err_p[i], 'err_minus': err_m[i],
                                'tol': tol[i], 'beta_ref': beta[i], 'batch_shape': list(shape)}
+            if prevflat is not None and err_p[i] > tol[i] and _maxerr(rebuilt[i], prevflat[i]) <= tol[i]:
+                ctx.check(False, 'su2_to_angle/stale-after-inplace-update', 'angle_to_su2(*su2_to_angle(U)) rebuilds the PREVIOUS contents of the array object, not U', wit)
+                continue
             ctx.check(err_s[i] <= tol[i], 'su2_to_angle/roundtrip-up-to-sign/' + ('pole' if reg[i] < 2 else rn),
                       'angle_to_su2(*su2_to_angle(U)) differs from both U and -U (' + rn + ')', wit)
             # gamma is documented in (0,4pi): the rebuilt matrix must be U itself, at and next to beta=pi too. A pure sign flip
@@ -248,7 +293,7 @@ def install(ctx, numqi):
                           'su2_to_angle/batch-vs-elementwise', 'batched su2_to_angle differs from the element-wise call (rebuilt matrices / beta compared)',
                           lambda i=i, one=one: {'U': flat[i], 'batched': [x[i] for x in ang], 'single': [float(x) for x in one], 'batch_shape': list(shape)})
 
-    ctx.attach(L, 'su2_to_angle', post=post_su2_to_angle)
+    ctx.attach(L, 'su2_to_angle', post=post_su2_to_angle, pre=pre_snap)
 
     # ------------------------------------------------------------------ angle_to_so3 / angle_to_su2
     def angle_args(c):
@@ -294,10 +339,11 @@ def install(ctx, numqi):
     def post_su2_to_so3(c):
         if c.exc is not None:
             return
-        U = c.args[0]
+        U = frozen(c, 'su2_to_so3')
         if not (isinstance(U, np.ndarray) and U.ndim >= 2 and U.shape[-2:] == (2, 2)):
             return
         shape = U.shape[:-2]
+        prev = previous('su2_to_so3', c.args[0], U)
         res = np.asarray(c.result)
         ok = res.shape == shape + (3, 3) and not np.iscomplexobj(res)
         ctx.check(ok, 'su2_to_so3/batch-shape', 'su2_to_so3 must return a real array of shape batch+(3,3)', {'in': list(U.shape), 'out': list(res.shape), 'dtype': str(res.dtype)})
@@ -310,6 +356,7 @@ def install(ctx, numqi):
             ctx.inconclusive('su2_to_so3: input not in SU(2) to 1e-12', int((~adm).sum()))
         if not adm.any():
             return
+        prevflat = None if prev is None else np.asarray(prev, dtype=np.complex128).reshape(-1, 2, 2)[adm]
         flat, R = flat[adm], R[adm]
         dfc = rs.so3_defect(R)
         k = int(np.argmax(dfc))
@@ -317,7 +364,9 @@ def install(ctx, numqi):
         err = _maxerr(R, rs.cover(flat))
         k = int(np.argmax(err))
         note('su2_to_so3_vs_cover', 'all', err[k])
-        ctx.check(err[k] <= TOL_GEN, 'su2_to_so3/value', 'su2_to_so3(U) differs from R_ij = Tr(sigma_i U sigma_j U^dagger)/2',
+        stale = prevflat is not None and err[k] > TOL_GEN and _maxerr(R[k], rs.cover(prevflat[k])) <= TOL_GEN
+        ctx.check(err[k] <= TOL_GEN, 'su2_to_so3/stale-after-inplace-update' if stale else 'su2_to_so3/value',
+                  'su2_to_so3(U) is the image of the PREVIOUS contents of the array object' if stale else 'su2_to_so3(U) differs from R_ij = Tr(sigma_i U sigma_j U^dagger)/2',
                   lambda: {'U': flat[k], 'got': R[k], 'expected': rs.cover(flat[k]), 'err': err[k]})
         idx = _pick(flat.shape[0])
         zero_eps = c.arg(1, 'zero_eps', 1e-7)
@@ -336,16 +385,17 @@ def install(ctx, numqi):
                     r1, good = repr(e)[:200], False
                 ctx.check(good, 'su2_to_so3/batch-vs-elementwise', 'batched su2_to_so3 differs from the element-wise call', lambda i=i, r1=r1: {'U': flat[i], 'batched': R[i], 'single': r1})
 
-    ctx.attach(L, 'su2_to_so3', post=post_su2_to_so3)
+    ctx.attach(L, 'su2_to_so3', post=post_su2_to_so3, pre=pre_snap)
 
     # ------------------------------------------------------------------ so3_to_su2
     def post_so3_to_su2(c):
         if c.exc is not None:
             return
-        R = c.args[0]
+        R = frozen(c, 'so3_to_su2')
         if not (isinstance(R, np.ndarray) and R.ndim >= 2 and R.shape[-2:] == (3, 3)):
             return
         shape = R.shape[:-2]
+        prev = previous('so3_to_su2', c.args[0], R)
         res = np.asarray(c.result)
         ok = res.shape == shape + (2, 2)
         ctx.check(ok, 'so3_to_su2/batch-shape', 'so3_to_su2 must return shape batch+(2,2)', {'in': list(R.shape), 'out': list(res.shape)})
@@ -358,6 +408,7 @@ def install(ctx, numqi):
             ctx.inconclusive('so3_to_su2: input not in SO(3) to 1e-12', int((~adm).sum()))
         if not adm.any():
             return
+        prevflat = None if prev is None else np.asarray(prev).real.reshape(-1, 3, 3).astype(np.float64)[adm]
         flat, U = flat[adm], U[adm]
         dfc = rs.su2_defect(U)
         k = int(np.argmax(dfc))
@@ -367,10 +418,12 @@ def install(ctx, numqi):
         err = _maxerr(rs.cover(U), flat)
         k = int(np.argmax(err / tol))
         note('so3_to_su2_covers', REGION_NAME[_region(beta[k])], err[k])
-        ctx.check(bool(np.all(err <= tol)), 'so3_to_su2/covers-input', 'the SU(2) matrix returned for R does not cover R (reference covering map)',
+        stale = prevflat is not None and not np.all(err <= tol) and bool(np.all(_maxerr(rs.cover(U), prevflat) <= tol))
+        ctx.check(bool(np.all(err <= tol)), 'so3_to_su2/stale-after-inplace-update' if stale else 'so3_to_su2/covers-input',
+                  'the SU(2) matrix returned covers the PREVIOUS contents of the array object' if stale else 'the SU(2) matrix returned for R does not cover R (reference covering map)',
                   lambda: {'R': flat[k], 'U': U[k], 'cover(U)': rs.cover(U[k]), 'err': err[k], 'tol': tol[k], 'beta_ref': beta[k]})
 
-    ctx.attach(L, 'so3_to_su2', post=post_so3_to_su2)
+    ctx.attach(L, 'so3_to_su2', post=post_so3_to_su2, pre=pre_snap)
 
     # ------------------------------------------------------------------ get_su2_irrep
     def post_irrep(c):
@@ -380,7 +433,7 @@ def install(ctx, numqi):
             j2 = int(c.args[0])
         except Exception:
             return
-        rest = c.args[1:]
+        rest = [frozen(c, 'get_su2_irrep', i) for i in range(1, len(c.args))]
         return_matd = bool(c.kwargs.get('return_matd', False))
         if j2 < 0 or len(rest) not in (1, 3) or j2 > 24:
             return
@@ -400,6 +453,7 @@ def install(ctx, numqi):
             shape = U.shape[:-2]
             Uf = np.asarray(U, dtype=np.complex128).reshape(-1, 2, 2)
             form = 'matrix'
+            prev = previous('get_su2_irrep', c.args[1], U)
         else:
             try:
                 a, b, g = [np.asarray(x, dtype=np.float64) for x in rest]
@@ -411,6 +465,10 @@ def install(ctx, numqi):
                 return
             Uf = None
             form = 'angles'
+            prev = None
+            for i in (1, 2, 3):
+                if previous(f'get_su2_irrep(angle{i})', c.args[i], rest[i - 1]) is not None:
+                    ctx.hit('get_su2_irrep@angle-array-updated-in-place')
         n = j2 + 1
         ok = res.shape == shape + (n, n)
         ctx.check(ok, 'irrep/batch-shape', 'get_su2_irrep must return shape batch+(j2+1,j2+1)', {'j2': j2, 'form': form, 'expected': list(shape) + [n, n], 'got': list(res.shape)})
@@ -446,7 +504,16 @@ def install(ctx, numqi):
         wit = lambda: {'j2': j2, 'form': form, 'U': Us[k], 'angles': None if form == 'matrix' else [A[idx[k]], B[idx[k]], G[idx[k]]], 'err': err[k],
                        'err_if_sign_flipped': err_m[k], 'tol': tol[k], 'beta_ref': beta[k], 'got': Ds[k], 'expected': ref[k]}
         only_sign = bool(np.all(np.minimum(err_p, err_m) <= tol))
-        if only_sign and not np.all(err <= tol):
+        stale = False
+        if prev is not None and not np.all(err <= tol):
+            prevU = np.asarray(prev, dtype=np.complex128).reshape(-1, 2, 2)[idx]
+            bad = err > tol
+            stale = bool(np.all(_maxerr(Ds[bad], rs.irrep_batch(j2, prevU[bad])) <= tol[bad]))
+        if stale:
+            ctx.check(False, 'irrep/stale-after-inplace-update',
+                      'get_su2_irrep(j2, U) returns D^j of the contents the same array object had at an earlier call, not of its present contents '
+                      '(argument updated in place between the calls)', lambda: {**wit(), 'previous_contents': prevU[k]})
+        elif only_sign and not np.all(err <= tol):
             ctx.check(False, 'irrep/value/sign', 'D^j(U) has the opposite sign of the reference for half-integer j', wit)
         else:
             ctx.check(bool(np.all(err <= tol)), 'irrep/value', 'D^j differs from the reference spin-j matrix (polynomial construction)', wit)
@@ -481,7 +548,7 @@ def install(ctx, numqi):
                     d1, good = repr(ex)[:200], False
                 ctx.check(good, 'irrep/batch-vs-elementwise', 'batched get_su2_irrep differs from the element-wise call', lambda i=i, d1=d1: {'j2': j2, 'U': Uf[i], 'single': d1, 'batched': D[i]})
 
-    ctx.attach(L, 'get_su2_irrep', post=post_irrep)
+    ctx.attach(L, 'get_su2_irrep', post=post_irrep, pre=pre_snap)
 
     # ------------------------------------------------------------------ angular momentum
     def post_angmom(c):
@@ -714,6 +781,118 @@ def run(ctx, shard):
                       'angle_to_su2(a,b,g) != angle_to_su2(a,0,0) angle_to_su2(0,b,0) angle_to_su2(0,0,g)', {'alpha': a, 'beta': b, 'gamma': g})
         return np.asarray(R), np.asarray(U)
 
+    def updates(U1, U2, pole):
+        """in-place updates of a work buffer holding U1 (same shape as U2, pole): name -> (function(buf), new contents)."""
+        def f_matmul(buf):
+            np.matmul(U1, U2, out=buf)
+
+        def f_assign(buf):
+            buf[:] = U2
+
+        def f_neg(buf):
+            buf *= -1
+
+        def f_pole(buf):
+            buf[...] = pole
+
+        def f_part(buf):
+            if buf.ndim > 2:
+                buf[::2] = pole[::2]
+            else:
+                buf[0, :] = pole[0, :]
+                buf[1, :] = pole[1, :]
+        return [('matmul(out=buf)', f_matmul, U1 @ U2), ('buf[:]=U2', f_assign, U2), ('buf*=-1', f_neg, -U1), ('buf[...]=degenerate', f_pole, pole),
+                ('partial overwrite', f_part, None)]
+
+    def workbuf_su2(j2_pairs, n, tag, interleave=(0,)):
+        """histories on ONE array object: fill, call, update in place, call again (same / different j2, single and batched
+        buffers, other matrices in between). The contracts judge every call against the contents at call time."""
+        for (j2a, j2b) in j2_pairs:
+            for batch_shape in ((), (n,), (2, n // 2)):
+                m = int(np.prod(batch_shape, dtype=np.int64))
+                U1 = _haar_su2(rng, m).reshape(batch_shape + (2, 2))
+                U2 = _haar_su2(rng, m).reshape(batch_shape + (2, 2))
+                pole = np.stack([_pole_su2(int(k), float(t)) for k, t in zip(rng.integers(0, 2, size=m), rng.uniform(0, 4 * PI, size=m))]).reshape(batch_shape + (2, 2))
+                for uname, fupd, newval in updates(U1, U2, pole):
+                    for gap in interleave:
+                        buf = np.empty(batch_shape + (2, 2), dtype=np.complex128)
+                        buf[...] = U1
+                        ctx.set_case({'op': 'work-buffer history', 'tag': tag, 'functions': 'get_su2_irrep/su2_to_angle/su2_to_so3', 'j2_first': j2a, 'j2_second': j2b,
+                                      'update': uname, 'batch_shape': list(batch_shape), 'other_matrices_in_between': gap, 'first_contents': U1.reshape(-1, 2, 2)[0]})
+                        ctx.case('workbuf-su2', tag, j2a, j2b, uname, U1, U2, nontrivial=True)
+                        ctx.workload('corner')
+                        D_first = lib('get_su2_irrep', G.get_su2_irrep, j2a, buf)
+                        lib('su2_to_angle', G.su2_to_angle, buf)
+                        lib('su2_to_so3', G.su2_to_so3, buf)
+                        for _ in range(gap):
+                            lib('get_su2_irrep', G.get_su2_irrep, j2b, _haar_su2(rng, 1)[0])
+                        fupd(buf)
+                        ctx.hit('history@work-buffer-updated-in-place')
+                        D_second = lib('get_su2_irrep', G.get_su2_irrep, j2b, buf)
+                        lib('su2_to_angle', G.su2_to_angle, buf)
+                        lib('su2_to_so3', G.su2_to_so3, buf)
+                        # the relation the caller relies on: D(U1 U2) = D(U1) D(U2), with the product evaluated through the buffer
+                        if uname.startswith('matmul') and D_second is not None and np.shape(D_second) == batch_shape + (j2b + 1, j2b + 1):
+                            Da = lib('get_su2_irrep', G.get_su2_irrep, j2b, U1.copy())
+                            Db = lib('get_su2_irrep', G.get_su2_irrep, j2b, U2.copy())
+                            if Da is not None and Db is not None and np.shape(Da) == np.shape(Db) == np.shape(D_second):
+                                dist = np.minimum.reduce([rs.pole_distance(rs.polar_su2(x)) for x in (U1, U2, U1 @ U2)])
+                                err = _maxerr(D_second, np.asarray(Da) @ np.asarray(Db))
+                                ctx.check(bool(np.all(err <= 3 * _tol(dist))), 'irrep/homomorphism-through-work-buffer',
+                                          'D^j(buf) != D^j(U1) D^j(U2) after np.matmul(U1, U2, out=buf) on a buffer that was passed to get_su2_irrep before',
+                                          {'j2_first': j2a, 'j2_second': j2b, 'batch_shape': list(batch_shape), 'err': float(np.max(err))})
+                        # a third call after restoring the first contents must reproduce the first answer
+                        buf[...] = U1
+                        D_third = lib('get_su2_irrep', G.get_su2_irrep, j2a, buf)
+                        if D_first is not None and D_third is not None and np.shape(D_first) == np.shape(D_third):
+                            ctx.check(bool(np.all(_maxerr(D_third, D_first) <= 1e-12)), 'irrep/not-a-function-of-contents',
+                                      'get_su2_irrep gives different answers for identical contents of the same array object', {'j2': j2a, 'update': uname})
+
+    def workbuf_so3(n, tag):
+        for batch_shape in ((), (n,), (2, n // 2)):
+            m = int(np.prod(batch_shape, dtype=np.int64))
+            R1 = rs.cover(_haar_su2(rng, m)).reshape(batch_shape + (3, 3))
+            R2 = rs.cover(_haar_su2(rng, m)).reshape(batch_shape + (3, 3))
+            pole = np.stack([_pole_so3(int(k), float(t)) for k, t in zip(rng.integers(0, 2, size=m), rng.uniform(0, 2 * PI, size=m))]).reshape(batch_shape + (3, 3))
+            for uname, fupd, _ in updates(R1, R2, pole):
+                if uname == 'buf*=-1':
+                    continue  # -R is not a rotation
+                if uname == 'partial overwrite' and not batch_shape:
+                    continue  # row-wise overwrite of a single matrix passes through non-orthogonal states only inside the update; fine, but skip for SO(3)
+                for start_at_pole in (False, True):
+                    buf = np.empty(batch_shape + (3, 3), dtype=np.float64)
+                    buf[...] = pole if start_at_pole else R1
+                    ctx.set_case({'op': 'work-buffer history', 'tag': tag, 'functions': 'so3_to_angle/so3_to_su2', 'update': uname, 'batch_shape': list(batch_shape),
+                                  'start_at_pole': start_at_pole})
+                    ctx.case('workbuf-so3', tag, uname, start_at_pole, R1, R2, nontrivial=True)
+                    ctx.workload('corner')
+                    lib('so3_to_angle', G.so3_to_angle, buf)
+                    lib('so3_to_su2', G.so3_to_su2, buf)
+                    if uname.startswith('matmul'):
+                        np.matmul(R1, R2, out=buf)
+                    else:
+                        fupd(buf)
+                    ctx.hit('history@work-buffer-updated-in-place')
+                    lib('so3_to_angle', G.so3_to_angle, buf)
+                    lib('so3_to_su2', G.so3_to_su2, buf)
+
+    def workbuf_angles(j2, tag):
+        a = rng.uniform(0, 2 * PI, size=6)
+        b = rng.uniform(0, PI, size=6)
+        g = rng.uniform(0, 4 * PI, size=6)
+        ctx.set_case({'op': 'work-buffer history (angle arrays)', 'tag': tag, 'j2': j2})
+        ctx.case('workbuf-angles', tag, j2, a, b, g, nontrivial=True)
+        ctx.workload('corner')
+        for fn in ('get_su2_irrep', 'angle_to_su2', 'angle_to_so3'):
+            f = (lambda *x: G.get_su2_irrep(j2, *x)) if fn == 'get_su2_irrep' else getattr(G, fn)
+            lib(fn, f, a, b, g)
+        a += 0.37
+        b[:] = [0.0, PI, 1e-9, PI - 1e-9, 0.3, 2.0]
+        g *= 0.5
+        for fn in ('get_su2_irrep', 'angle_to_su2', 'angle_to_so3'):
+            f = (lambda *x: G.get_su2_irrep(j2, *x)) if fn == 'get_su2_irrep' else getattr(G, fn)
+            lib(fn, f, a, b, g)
+
     betas = POLE_BETAS + (EXTRA_POLE_BETAS if tier == 'thorough' else [])
     al, ga, ss, dd = _sd_grid(tier)
     ctx.extra['grid'] = {'pole_betas': betas, 'generic_betas': GENERIC_BETAS, 'n_alpha_gamma': int(al.size)}
@@ -755,6 +934,7 @@ def run(ctx, shard):
             so3_case(batch.reshape(k, l, 3, 3), 'mixed (k,l)', 'corner')
             so3_case(batch[:1], 'mixed (1,)', 'corner')
             so3_case(batch.reshape(k, 1, l, 3, 3), 'mixed (k,1,l)', 'corner')
+        workbuf_so3(4, 'grid-so3 shard')
 
     # ---------------------------------------------------------------------------------------- grid-su2
     elif name == 'grid-su2':
@@ -791,6 +971,18 @@ def run(ctx, shard):
             su2_case(batch.reshape(k, l, 2, 2), 'mixed (k,l)', 'corner', irreps=(2,))
             su2_case(batch[:1], 'mixed (1,)', 'corner', irreps=())
             su2_case(batch.reshape(k, 1, l, 2, 2), 'mixed (k,1,l)', 'corner', irreps=())
+        workbuf_su2([(1, 1), (2, 3)], 4, 'grid-su2 shard')
+
+    # ---------------------------------------------------------------------------------------- work-buffer histories
+    elif name.startswith('workbuf'):
+        reps = 1 if tier == 'quick' else 4
+        for rep in range(reps):
+            workbuf_su2([(j, j) for j in range(0, 11)], 6, f'workbuf same-j2 rep={rep}', interleave=(0,))
+            pairs = [(0, 1), (1, 2), (2, 1), (1, 10), (10, 3), (4, 9), (0, 5), (7, 0)] + [(int(x), int(y)) for x, y in rng.integers(0, 11, size=(4, 2))]
+            workbuf_su2(pairs, 6, f'workbuf other-j2 rep={rep}', interleave=(0, 3, 15))
+            workbuf_so3(6, f'workbuf rep={rep}')
+            for j2 in range(0, 11):
+                workbuf_angles(j2, f'workbuf rep={rep}')
 
     # ---------------------------------------------------------------------------------------- cube (exhaustive finite subgroups)
     elif name == 'cube':
@@ -917,6 +1109,8 @@ def run(ctx, shard):
             homomorphism(U, _haar_su2(rng, n), [j2], f'irrep haar pairs j2={j2}', 'random')
             homomorphism(U, rs.dagger(U) @ near, [j2], f'irrep product on a pole j2={j2}', 'corner')
             homomorphism(near, _haar_su2(rng, n), [j2], f'irrep pole x haar j2={j2}', 'corner')
+            workbuf_su2([(j2, j2), (int(rng.integers(0, 11)), j2)], 4, f'irrep shard j2={j2}')
+            workbuf_angles(j2, f'irrep shard j2={j2}')
             # the representation is generated by the library's own angular momentum operators
             if J is not None and isinstance(J, tuple) and len(J) == 3 and all(np.shape(x) == (j2 + 1, j2 + 1) for x in J):
                 for k, ax in enumerate('xyz'):
